@@ -238,6 +238,135 @@ theorem withFrame_mono {L : List Name} {σ : TSt} {A B : Option (Out × TSt)} (h
   obtain ⟨o, τ, hA, rfl⟩ := withFrame_some h
   rw [hAB _ hA]; rfl
 
+/-! ### `try` as a composition (source and native target) -/
+
+/-- The handler step of a source `try`. -/
+def afterHS (X : Ext) (n : Nat) (hs : List (Nat × Block)) : Out × St → Option (Out × St)
+  | (.exc ex, σ') => (match findHandler hs ex with
+      | some hb => execB X n hb σ'
+      | none => some (.exc ex, σ'))
+  | r => some r
+
+/-- The `finally` step of a source `try`. -/
+def finishS (X : Ext) (n : Nat) (fin : Block) : Out × St → Option (Out × St)
+  | (o', σ'') => (match execB X n fin σ'' with
+      | none => none
+      | some (.normal, σ₃) => some (o', σ₃)
+      | some r => some r)
+
+theorem exec_tryS (X : Ext) (n : Nat) (body : Block) (hs : List (Nat × Block)) (fin : Block) (σ : St) :
+    exec X (n+1) (.tryS body hs fin) σ
+      = (execB X n body σ).bind fun r => (afterHS X n hs r).bind (finishS X n fin) := by
+  simp only [exec]
+  cases hb : execB X n body σ with
+  | none => simp
+  | some rb =>
+    obtain ⟨o, σ'⟩ := rb
+    simp only [Option.bind_some]
+    cases o with
+    | exc ex =>
+      simp only [afterHS]
+      cases hh : findHandler hs ex with
+      | none =>
+        simp only [Option.bind_some, finishS]
+        cases execB X n fin σ' with
+        | none => rfl
+        | some r => obtain ⟨o2, σ2⟩ := r; cases o2 <;> rfl
+      | some hbk =>
+        simp only
+        cases execB X n hbk σ' with
+        | none => simp
+        | some r2 =>
+          obtain ⟨o2, σ2⟩ := r2; simp only [Option.bind_some, finishS]
+          cases execB X n fin σ2 with
+          | none => rfl
+          | some r => obtain ⟨o3, σ3⟩ := r; cases o3 <;> rfl
+    | _ =>
+      simp only [afterHS, Option.bind_some, finishS]
+      cases execB X n fin σ' with
+      | none => rfl
+      | some r => obtain ⟨o2, σ2⟩ := r; cases o2 <;> rfl
+
+def afterHN (X : Ext) (n : Nat) (hs : List (Nat × TBlock)) : Out × TSt → Option (Out × TSt)
+  | (.exc ex, σ') => (match findHandlerT hs ex with
+      | some hb => execNB X n hb σ'
+      | none => some (.exc ex, σ'))
+  | r => some r
+
+def finishN (X : Ext) (n : Nat) (fin : TBlock) : Out × TSt → Option (Out × TSt)
+  | (o', σ'') => (match execNB X n fin σ'' with
+      | none => none
+      | some (.normal, σ₃) => some (o', σ₃)
+      | some r => some r)
+
+theorem execN_try (X : Ext) (n : Nat) (body : TBlock) (hs : List (Nat × TBlock)) (fin : TBlock) (σ : TSt) :
+    execN X (n+1) (.tryT body hs fin) σ
+      = (execNB X n body σ).bind fun r => (afterHN X n hs r).bind (finishN X n fin) := by
+  simp only [execN]
+  cases hb : execNB X n body σ with
+  | none => simp
+  | some rb =>
+    obtain ⟨o, σ'⟩ := rb
+    simp only [Option.bind_some]
+    cases o with
+    | exc ex =>
+      simp only [afterHN]
+      cases hh : findHandlerT hs ex with
+      | none =>
+        simp only [Option.bind_some, finishN]
+        cases execNB X n fin σ' with
+        | none => rfl
+        | some r => obtain ⟨o2, σ2⟩ := r; cases o2 <;> rfl
+      | some hbk =>
+        simp only
+        cases execNB X n hbk σ' with
+        | none => simp
+        | some r2 =>
+          obtain ⟨o2, σ2⟩ := r2; simp only [Option.bind_some, finishN]
+          cases execNB X n fin σ2 with
+          | none => rfl
+          | some r => obtain ⟨o3, σ3⟩ := r; cases o3 <;> rfl
+    | _ =>
+      simp only [afterHN, Option.bind_some, finishN]
+      cases execNB X n fin σ' with
+      | none => rfl
+      | some r => obtain ⟨o2, σ2⟩ := r; cases o2 <;> rfl
+
+theorem finishN_some {X : Ext} {n : Nat} {fin : TBlock} {o : Out} {τ : TSt} {r : Out × TSt}
+    (h : finishN X n fin (o, τ) = some r) :
+    ∃ of σf, execNB X n fin τ = some (of, σf) ∧
+      ((of = .normal ∧ r = (o, σf)) ∨ (of ≠ .normal ∧ r = (of, σf))) := by
+  simp only [finishN] at h
+  cases hf : execNB X n fin τ with
+  | none => simp [hf] at h
+  | some rf =>
+    obtain ⟨of, σf⟩ := rf
+    rw [hf] at h
+    refine ⟨of, σf, rfl, ?_⟩
+    cases of <;> simp_all
+
+theorem finishN_of_normal {X : Ext} {n : Nat} {fin : TBlock} {o : Out} {τ σf : TSt}
+    (h : execNB X n fin τ = some (.normal, σf)) : finishN X n fin (o, τ) = some (o, σf) := by
+  simp [finishN, h]
+
+theorem finishN_of_abrupt {X : Ext} {n : Nat} {fin : TBlock} {o of : Out} {τ σf : TSt}
+    (h : execNB X n fin τ = some (of, σf)) (hne : of ≠ .normal) : finishN X n fin (o, τ) = some (of, σf) := by
+  simp only [finishN, h]
+  cases of <;> simp_all
+
+theorem finishS_some {X : Ext} {n : Nat} {fin : Block} {o : Out} {τ : St} {r : Out × St}
+    (h : finishS X n fin (o, τ) = some r) :
+    ∃ of σf, execB X n fin τ = some (of, σf) ∧
+      ((of = .normal ∧ r = (o, σf)) ∨ (of ≠ .normal ∧ r = (of, σf))) := by
+  simp only [finishS] at h
+  cases hf : execB X n fin τ with
+  | none => simp [hf] at h
+  | some rf =>
+    obtain ⟨of, σf⟩ := rf
+    rw [hf] at h
+    refine ⟨of, σf, rfl, ?_⟩
+    cases of <;> simp_all
+
 /-! ### Fuel monotonicity of the native semantics -/
 def MonoN (X : Ext) (n : Nat) : Prop :=
   (∀ s σ r, execN X n s σ = some r → ∀ m, n ≤ m → execN X m s σ = some r) ∧
@@ -322,6 +451,39 @@ theorem monoN (X : Ext) : ∀ n, MonoN X n := by
                 split
                 · rename_i htt; rw [if_pos htt] at h; exact ihF _ _ _ _ _ _ _ h _ hnm
                 · rename_i htt; rw [if_neg htt] at h; exact h
+      | withT tag body =>
+        simp only [execN] at h ⊢
+        cases hb : execNB X n body (σ.push (.enter tag)) with
+        | none => simp [hb] at h
+        | some rb => rw [ihB _ _ _ hb _ hnm]; rw [hb] at h; exact h
+      | tryT body hs fin =>
+        rw [execN_try] at h ⊢
+        cases hb : execNB X n body σ with
+        | none => simp [hb] at h
+        | some rb =>
+          rw [ihB _ _ _ hb _ hnm]
+          rw [hb] at h
+          simp only [Option.bind_some] at h ⊢
+          cases ha : afterHN X n hs rb with
+          | none => simp [ha] at h
+          | some ra =>
+            have ha' : afterHN X m' hs rb = some ra := by
+              obtain ⟨o, σ'⟩ := rb
+              cases o with
+              | exc ex =>
+                simp only [afterHN] at ha ⊢
+                cases hf : findHandlerT hs ex with
+                | none => rw [hf] at ha; exact ha
+                | some hb' => rw [hf] at ha; simp only at ha ⊢; exact ihB _ _ _ ha _ hnm
+              | _ => simpa [afterHN] using ha
+            rw [ha'] ; rw [ha] at h
+            simp only [Option.bind_some] at h ⊢
+            obtain ⟨o', σ''⟩ := ra
+            obtain ⟨of, σf, hfin, hcase⟩ := finishN_some h
+            have hfin' := ihB _ _ _ hfin _ hnm
+            rcases hcase with ⟨rfl, rfl⟩ | ⟨hne, rfl⟩
+            · exact finishN_of_normal hfin'
+            · exact finishN_of_abrupt hfin' hne
     · intro b σ r h m hm
       obtain ⟨m', rfl⟩ : ∃ m', m = m' + 1 := ⟨m - 1, by omega⟩
       have hnm : n ≤ m' := by omega
@@ -511,36 +673,48 @@ theorem Agree.set {L M : List Name} {τ : St} {τ' : TSt} (h : Agree L τ τ') (
 
 /-! ### Direct assignments of a functionalised block are among the names the block may assign -/
 theorem direct_append : ∀ (a b : TBlock), direct (a ++ b) = direct a ++ direct b
-  | [], b => rfl
+  | [], b => by simp [direct]
   | s :: a, b => by simp [direct, direct_append a b]
 
 theorem direct_undefs : ∀ (us : List Name), direct (undefs us) = us
-  | [] => rfl
+  | [] => by simp [undefs, direct]
   | u :: us => by
       have := direct_undefs us
       simp only [undefs] at this
       simp [undefs, direct, directS, this]
 
-theorem direct_funcS (s : AStmt) (h : DeclS s) : direct (funcS s) ⊆ asgS s := by
-  cases s with
-  | assign i x e => simp [funcS, direct, directS, asgS]
-  | expr i e => simp [funcS, direct, directS]
-  | pass i => simp [funcS, direct, directS]
-  | ret i e => simp [funcS, direct, directS]
-  | raise i t => simp [funcS, direct, directS]
-  | ifS i c t e =>
-    simp only [DeclS] at h
-    simp only [funcS, direct_append, direct_undefs, direct, directS, asgS, List.append_nil]
-    exact h.2.1
-  | whileS i c b =>
-    simp only [DeclS] at h
-    simp only [funcS, direct_append, direct_undefs, direct, directS, asgS, List.append_nil]
-    exact h.2.1
-  | forS i x it extra b =>
-    simp only [DeclS] at h
-    simp only [funcS, direct_append, direct_undefs, direct, directS, asgS, List.append_nil]
-    exact h.2.1
-
+mutual
+theorem direct_funcS : ∀ (s : AStmt), DeclS s → direct (funcS s) ⊆ asgS s
+  | .assign i x e, _ => by simp [funcS, direct, directS, asgS]
+  | .expr i e, _ => by simp [funcS, direct, directS]
+  | .pass i, _ => by simp [funcS, direct, directS]
+  | .ret i e, _ => by simp [funcS, direct, directS]
+  | .raise i t, _ => by simp [funcS, direct, directS]
+  | .ifS i c t e, h => by
+      simp only [DeclS] at h
+      simp only [funcS, direct_append, direct_undefs, direct, directS, asgS, List.append_nil]
+      exact h.2.1
+  | .whileS i c b, h => by
+      simp only [DeclS] at h
+      simp only [funcS, direct_append, direct_undefs, direct, directS, asgS, List.append_nil]
+      exact h.2.1
+  | .forS i x it extra b, h => by
+      simp only [DeclS] at h
+      simp only [funcS, direct_append, direct_undefs, direct, directS, asgS, List.append_nil]
+      exact h.2.1
+  | .withS i tag b, h => by
+      simp only [DeclS] at h
+      simp only [funcS, direct, directS, asgS, List.append_nil]
+      exact direct_funcB b h
+  | .tryS i b hs f, h => by
+      simp only [DeclS] at h
+      simp only [funcS, direct, directS, asgS, List.append_nil]
+      intro x hx
+      rcases List.mem_append.mp hx with hx | hx
+      · exact List.mem_append.mpr (Or.inl (direct_funcB b h.1 hx))
+      · rcases List.mem_append.mp hx with hx | hx
+        · exact List.mem_append.mpr (Or.inr (List.mem_append.mpr (Or.inl (direct_funcH hs h.2.1 hx))))
+        · exact List.mem_append.mpr (Or.inr (List.mem_append.mpr (Or.inr (direct_funcB f h.2.2 hx))))
 theorem direct_funcB : ∀ (b : ABlock), DeclB b → direct (funcB b) ⊆ asgB b
   | [], _ => by simp [funcB, direct]
   | s :: r, h => by
@@ -550,5 +724,120 @@ theorem direct_funcB : ∀ (b : ABlock), DeclB b → direct (funcB b) ⊆ asgB b
       rcases List.mem_append.mp hx with hx | hx
       · exact List.mem_append.mpr (Or.inl (direct_funcS s h.1 hx))
       · exact List.mem_append.mpr (Or.inr (direct_funcB r h.2 hx))
+theorem direct_funcH : ∀ (hs : List (Nat × List AStmt)), DeclH hs → directH (funcH hs) ⊆ asgH hs
+  | [], _ => by simp [funcH, directH]
+  | (t, b) :: r, h => by
+      simp only [DeclH] at h
+      simp only [funcH, directH, asgH]
+      intro x hx
+      rcases List.mem_append.mp hx with hx | hx
+      · exact List.mem_append.mpr (Or.inl (direct_funcB b h.1 hx))
+      · exact List.mem_append.mpr (Or.inr (direct_funcH r h.2 hx))
+end
+
+/-! ### Implicit exceptions: what expression evaluation can raise is never a user exception -/
+def IsImpl : Exc → Prop
+  | .user _ => False
+  | _ => True
+
+theorem evalBin_impl {op : BinOp} {a b : Val} {ex : Exc} (h : evalBin op a b = .error ex) : IsImpl ex := by
+  cases op <;> cases a <;> cases b <;> simp [evalBin] at h <;> subst h <;> trivial
+
+mutual
+theorem evalE_impl (X : Ext) : ∀ (e : Expr) (σ : St) (ex : Exc), (evalE X e σ).1 = .error ex → IsImpl ex
+  | .const _, σ, ex, h => by simp [evalE] at h
+  | .var x, σ, ex, h => by
+      simp only [evalE] at h
+      split at h
+      · simp at h
+      · simp at h; subst h; trivial
+  | .not e, σ, ex, h => by
+      simp only [evalE] at h
+      rcases h1 : evalE X e σ with ⟨r, σ'⟩
+      rw [h1] at h
+      cases r with
+      | ok v => simp at h
+      | error e' => simp at h; subst h; exact evalE_impl X e σ _ (by rw [h1])
+  | .and a b, σ, ex, h => by
+      simp only [evalE] at h
+      rcases h1 : evalE X a σ with ⟨r, σ'⟩
+      rw [h1] at h
+      cases r with
+      | ok v =>
+        simp only at h
+        split at h
+        · exact evalE_impl X b σ' _ h
+        · simp at h
+      | error e' => simp at h; subst h; exact evalE_impl X a σ _ (by rw [h1])
+  | .or a b, σ, ex, h => by
+      simp only [evalE] at h
+      rcases h1 : evalE X a σ with ⟨r, σ'⟩
+      rw [h1] at h
+      cases r with
+      | ok v =>
+        simp only at h
+        split at h
+        · simp at h
+        · exact evalE_impl X b σ' _ h
+      | error e' => simp at h; subst h; exact evalE_impl X a σ _ (by rw [h1])
+  | .ite c t e, σ, ex, h => by
+      simp only [evalE] at h
+      rcases h1 : evalE X c σ with ⟨r, σ'⟩
+      rw [h1] at h
+      cases r with
+      | ok v =>
+        simp only at h
+        split at h
+        · exact evalE_impl X t σ' _ h
+        · exact evalE_impl X e σ' _ h
+      | error e' => simp at h; subst h; exact evalE_impl X c σ _ (by rw [h1])
+  | .bin op a b, σ, ex, h => by
+      simp only [evalE] at h
+      rcases h1 : evalE X a σ with ⟨r, σ'⟩
+      rw [h1] at h
+      cases r with
+      | ok v =>
+        simp only at h
+        rcases h2 : evalE X b σ' with ⟨q, σ''⟩
+        rw [h2] at h
+        cases q with
+        | ok w =>
+          simp only at h
+          cases h3 : evalBin op v w with
+          | ok r' => rw [h3] at h; simp at h
+          | error e' => rw [h3] at h; simp at h; subst h; exact evalBin_impl h3
+        | error e' => simp at h; subst h; exact evalE_impl X b σ' _ (by rw [h2])
+      | error e' => simp at h; subst h; exact evalE_impl X a σ _ (by rw [h1])
+  | .call f args, σ, ex, h => by
+      simp only [evalE] at h
+      rcases h1 : evalArgs X args σ with ⟨r, σ'⟩
+      rw [h1] at h
+      cases r with
+      | ok vs => simp at h
+      | error e' => simp at h; subst h; exact evalArgs_impl X args σ _ (by rw [h1])
+theorem evalArgs_impl (X : Ext) : ∀ (es : List Expr) (σ : St) (ex : Exc), (evalArgs X es σ).1 = .error ex → IsImpl ex
+  | [], σ, ex, h => by simp [evalArgs] at h
+  | e :: es, σ, ex, h => by
+      simp only [evalArgs] at h
+      rcases h1 : evalE X e σ with ⟨r, σ'⟩
+      rw [h1] at h
+      cases r with
+      | ok v =>
+        simp only at h
+        rcases h2 : evalArgs X es σ' with ⟨q, σ''⟩
+        rw [h2] at h
+        cases q with
+        | ok vs => simp at h
+        | error e' => simp at h; subst h; exact evalArgs_impl X es σ' _ (by rw [h2])
+      | error e' => simp at h; subst h; exact evalE_impl X e σ _ (by rw [h1])
+end
+
+theorem iterItems_impl {v : Val} {ex : Exc} (h : iterItems v = .error ex) : IsImpl ex := by
+  cases v <;> simp [iterItems] at h
+  subst h; trivial
+
+/-! ### Log events on both sides -/
+theorem Agree.push {L : List Name} {σ : St} {σ' : TSt} (h : Agree L σ σ') (e : Event) : Agree L (σ.push e) (σ'.push e) :=
+  ⟨fun x hx => h.1 x hx, by simp [St.push, TSt.push, h.2]⟩
 
 end Malt.Func
